@@ -210,6 +210,37 @@ def h_scopes(e, outer, inner, lo, hi, unclosed=0):
         e.nontriv()
 
 
+def h_latexdefs(e, scope, which):
+    """LaTeX's own definition commands are local to the scope they are issued in, like \\def"""
+    doc = TeXDocument()
+    o, c = SCOPES[scope]
+    pc = e.char('p', 97, 122)
+    if which == 'renewcommand':
+        parts = ['\\newcommand{\\vqn}{G}', o, '\\renewcommand{\\vqn}{', pc, '}[\\vqn]', c, '[\\vqn]']
+        want = ['[', pc, ']', '[', 'G', ']']
+    elif which == 'newcommand':
+        parts = [o, '\\newcommand{\\vqn}{', pc, '}[\\vqn]', c, '[\\vqn]']
+        want = ['[', pc, ']', '[', ']']
+    else:
+        parts = ['\\newenvironment{vqe}{<}{>}', o, '\\renewenvironment{vqe}{(}{', pc, ')}\\begin{vqe}x\\end{vqe}', c, '\\begin{vqe}y\\end{vqe}']
+        want = ['(', 'x', pc, ')', '<', 'y', '>']
+    chars = []
+    for x in parts:
+        chars.extend(api.chars(x))
+    tex = TeX(doc)
+    tex.input(Src(chars))
+    try:
+        out = tex.parse()
+    except (KeyError, ValueError, TypeError, IndexError, AttributeError) as ex:
+        e.fail_exception(ex)
+        return
+    got = [ch for ch in api.chars(api.text_of(out.textContent)) if not eq(ch, ' ') and not eq(ch, '\n')]
+    e.observe(api.cat(got))
+    ok = len(got) == len(want) and api.all_([eq(a, b) for a, b in zip(got, want)])
+    e.check(ok, '\\%s issued inside %s is still in force after the scope closed' % (which, scope), 'latex-def-global:' + which)
+    e.nontriv()
+
+
 # ------------------------------------------------------------------------------------------- (c) API histories
 def h_api(e, nframes, nops):
     ctx = Context(load=True)
@@ -322,6 +353,9 @@ def jobs(tier, seed):
                 if outer == 'env' and inner == 'env' and False:
                     continue
                 J.append(dict(harness='h_scopes', params=dict(outer=outer, inner=inner, lo=0, hi=5, unclosed=u), label='unclosed %d in %s>%s' % (u, outer, inner), no_twin=True))
+    for scope in ('brace', 'begingroup', 'env'):
+        for which in ('renewcommand', 'newcommand', 'newenvironment'):
+            J.append(dict(harness='h_latexdefs', params=dict(scope=scope, which=which), label='%s in %s' % (which, scope), no_twin=True))
     for nf in (0, 1, 2, 3):
         J.append(dict(harness='h_api', params=dict(nframes=nf, nops=1 if q else 2), label='api from %d frames' % nf, no_twin=nf > 0))
     if q:
